@@ -7,7 +7,7 @@ CONSTANTS
   IdArgs <- IdsAll
   Ops <- OpsAll
   MaxBuckets = 3
-  MaxProofs = 3
+  MaxProofs = 5
   MaxAz = 3
   MaxInstr = 30
   MaxTx = 8
